@@ -8,17 +8,21 @@ import (
 	"os"
 	"path/filepath"
 	"reflect"
+	"strings"
 	"time"
 
 	"github.com/go-jose/go-jose/v4"
 	"github.com/go-jose/go-jose/v4/jwt"
 	"github.com/rs/zerolog"
 
+	"github.com/dadrus/heimdall/internal/cache"
+	"github.com/dadrus/heimdall/internal/cache/memory"
 	"github.com/dadrus/heimdall/internal/handler/management"
 	"github.com/dadrus/heimdall/internal/handler/middleware/http/errorhandler"
 	"github.com/dadrus/heimdall/internal/keyholder"
 	"github.com/dadrus/heimdall/internal/otel/metrics/certificate"
 	"github.com/dadrus/heimdall/internal/rules/mechanisms/finalizers"
+	"github.com/dadrus/heimdall/internal/rules/mechanisms/subject"
 
 	"github.com/dadrus/heimdall/verif/engine"
 	"github.com/dadrus/heimdall/verif/hx"
@@ -146,7 +150,58 @@ func execRotation(rc *RotationCase) (sig, summary string) {
 		return set, rec.Body.String(), nil
 	}
 
+	cch, err := memory.NewCache(nil, nil, nil)
+	if err != nil {
+		return "", "harness: " + err.Error()
+	}
+
+	verifyToken := func(step, how, tok string, pubs []any) (string, string) {
+		_ = pubs
+
+		set, body, jerr := readJWKS()
+		if jerr != nil {
+			return "rotations/served-document-is-not-a-valid-key-set/" + step, fmt.Sprintf("%v: %.300s", jerr, body)
+		}
+
+		parsed, err := jwt.ParseSigned(tok, allAlgs)
+		if err != nil {
+			return "rotations/token-not-parsable/" + step, err.Error()
+		}
+
+		verified := false
+
+		for _, k := range set.Key(parsed.Headers[0].KeyID) {
+			var claims map[string]any
+			if parsed.Claims(k.Key, &claims) == nil {
+				verified = true
+			}
+		}
+
+		if !verified {
+			return "rotations/token-" + how + "-does-not-verify-against-the-served-jwks/" + step,
+				fmt.Sprintf("kid=%q jwks=%.300s", parsed.Headers[0].KeyID, body)
+		}
+
+		return "", ""
+	}
+
 	verify := func(step string, pubs []any) (string, string) {
+		// the token a request gets: through the finalizer and the cache every request of the instance shares
+		hctx := hx.NewCtx("GET", "http://h/x")
+		hctx.AppCtx = cache.WithContext(zerolog.Nop().WithContext(hctx.AppCtx), cch)
+
+		if xerr := fin.Execute(hctx, &subject.Subject{ID: "alice"}); xerr != nil {
+			return "rotations/execute-failed/" + step, xerr.Error()
+		}
+
+		if vals := hctx.Headers["Authorization"]; len(vals) == 1 {
+			if s, sum := verifyToken(step, "handed-to-a-request-after-the-rotation", strings.TrimPrefix(vals[0], "Bearer "), pubs); s != "" {
+				return s, sum
+			}
+		} else {
+			return "rotations/header-missing/" + step, fmt.Sprint(hctx.Headers)
+		}
+
 		tok, err := signer.Sign("alice", 5*time.Minute, map[string]any{"foo": "bar"})
 		if err != nil {
 			return "rotations/sign-failed/" + step, err.Error()
